@@ -2,7 +2,10 @@
 (* C40: shrex `PoolTracker` (node/src/p2p/shrex/pool_tracker.rs).                        *)
 (*                                                                                      *)
 (* Heights are relative to a base header that is in the store when the tracker is       *)
-(* created (model height 0).  The data hash of height h is h itself (distinct hashes     *)
+(* created (model height 0); negative heights are headers below it (in the store from    *)
+(* the start).  Until the first poll has read the store's head the subjective head is     *)
+(* unknown (None) - notifications may arrive in that phase too, for any height.           *)
+(* The data hash of height h is h itself (distinct hashes                                *)
 (* per height, as the statement assumes); Bogus is a hash no header has.  The arrival    *)
 (* of header h in the store is the environment action Arrive(h) (any order); the 120 s   *)
 (* validation timeout is the environment action Advance.  Poll is one call of            *)
@@ -17,13 +20,16 @@
 (* added to the pool a second time instead of being blocked.                             *)
 EXTENDS Integers, Sequences, FiniteSets
 
-CONSTANTS Peers, Heights, Window, MaxEv, DupValidated, XHash
+CONSTANTS Peers, Up, Down, Window, MaxEv, DupValidated, XHash
+\* Up: heights above the base header, Down: depths below it (TLC configuration files have no negative literals)
+Heights == Up \cup {0 - d : d \in Down}
 \* XHash: for each height the hashes a peer may announce besides Bogus (model scope)
 
 Bogus  == 0
-None   == -1
+None   == -1000
 Hashes == Heights \cup {Bogus}
 ASSUME \A h \in Heights : XHash[h] \subseteq Heights
+ASSUME Bogus \notin Heights /\ None \notin Heights
 
 VARIABLES hd,        \* subjective head (None before the first header was seen)
           pools,     \* height -> pool record
@@ -50,7 +56,7 @@ Thr(h) == h - Window                               \* stale_height_threshold (ba
 Stale(h) == hd # None /\ h <= Thr(hd)
 
 Init == /\ hd = None /\ pools = [h \in Heights |-> NoPool] /\ vpk = {} /\ vp = [x \in Hashes |-> <<>>]
-        /\ tasks = {} /\ initTask = TRUE /\ arrived = {} /\ expired = {} /\ quiet = FALSE /\ ev = <<>>
+        /\ tasks = {} /\ initTask = TRUE /\ arrived = {h \in Heights : h <= 0} /\ expired = {} /\ quiet = FALSE /\ ev = <<>>
         /\ owe = {} /\ blk = {} /\ why = ""
         /\ op = [a |-> "init", p |-> 0, x |-> 0, h |-> 0] /\ res = <<"none">>
 
